@@ -59,7 +59,7 @@ mutual
     | .func name schema args distinct special extractFrom filter over partition overOrder frame noParens alias =>
         .func name schema (mapTL p f args) distinct special (mapTO p f extractFrom) (mapTO p f filter) over
           (mapTL p f partition) (mapOrd p f overOrder) frame noParens alias
-    | .param s => .param s
+    | .param s a => .param s a
     | .interval iv => .interval iv
     | .json j a => .json j a
     | .pseudo n => .pseudo n
@@ -200,7 +200,7 @@ mutual
     | .case ws e _ => chkPairs p P ws && chkTO p P e
     | .func _ _ args _ _ extractFrom filter _ partition overOrder _ _ _ =>
         chkTL p P args && chkTO p P extractFrom && chkTO p P filter && chkTL p P partition && chkOrd p P overOrder
-    | .param _ => true
+    | .param _ _ => true
     | .interval _ => true
     | .json _ _ => true
     | .pseudo _ => true
